@@ -69,6 +69,24 @@ def merge (loc remote : List Version) : MergeRes :=
   | some (vs, true, last) => .updated vs last
   | some (vs, false, _) => .nothing vs
 
+/-- what `identity.MergeAll` reports for one remote identity that also exists locally -/
+inductive MergeAllRes where
+  | invalidRemote (vs : List Version)   -- the remote does not validate: refused, local untouched
+  | merged (r : MergeRes)
+deriving DecidableEq, Repr
+
+/-- `identity.MergeAll` for an identity that exists locally: the remote identity is validated first,
+and only a valid one is handed to `Identity.Merge` (which moves the local ref). -/
+def mergeAll (loc remote : List Version) : MergeAllRes :=
+  if validate remote then .merged (merge loc remote) else .invalidRemote loc
+
+/-- the local history after the merge -/
+def MergeAllRes.chain : MergeAllRes → List Version
+  | .invalidRemote vs => vs
+  | .merged (.updated vs _) => vs
+  | .merged (.nothing vs) => vs
+  | .merged (.nonFastForward vs) => vs
+
 /-- `Identity.ValidKeysAtTime`: keys of the last version whose time for `clock` is ≤ `t`
 (a version without that clock inherits the previous version's time). -/
 def validKeysFrom (clock : String) (t : Nat) (lastTime : Nat) (result : List String) : List Version → List String
